@@ -745,6 +745,10 @@ def no_state_between_calls(ctx, cf, rule):
             ctx.analysed_files.add(rel)
             with open(os.path.join(full, f), errors="replace") as fh:
                 txt = fh.read()
+            if txt.lstrip().startswith("/* Generated by Cython"):
+                n_files -= 1        # build product of a .pyx (untracked): the wrapper's module state is not kernel state
+                ctx.analysed_files.discard(rel)
+                continue
             for line, decl in _static_locals(txt):
                 m_ = re.match(r"static\s+const\b[^=]*=(.*)$", decl)
                 if m_:
